@@ -93,7 +93,7 @@ def _quiet(fn, *a, **k):
 
 
 def bases(tier):
-    """[(stage, base)] — base = {"id", "fam", "spec"}"""
+    """the hand-picked bases; base = {"id", "fam", "spec"}"""
     out = []
     for k, s in QUICK_DAG.items():
         out.append({"id": "dag:" + k, "fam": "dag", "spec": s})
@@ -171,8 +171,8 @@ class Model:
 
     def note_nests(self):
         for g in self.groups:
-            if len(g) > 1 and g not in self.nest_names:
-                self.nest_names[g] = {o: self.M[o] for o in self.group_outs(g)}
+            if len(g) > 1 and g not in self.nest_names:  # records of nodes nested earlier (now inside g) are kept
+                self.nest_names[g] = {n: self.M[n] for n in self.group_outs(g) | self.group_params(g)}
 
     def defaults(self):
         if self.fam != "dag":
@@ -245,6 +245,16 @@ class Model:
             return AXIS_SIZES[axis]
         return self.spec["sizes"][axis]
 
+    def _nest_renamed(self, outs):
+        """was a name of some nested node (at any depth) changed after the node was created?"""
+        for g, names in self.nest_names.items():
+            if any(g <= h for h in self.groups):
+                mine = self.group_outs(g)
+                for n, v in names.items():
+                    if (n in mine) == outs and n not in self.dropped and self.M[n] != v:
+                        return True
+        return False
+
     def key(self):
         live = set(self.roots()) | set(self.outputs())
         return json.dumps([sorted((k, v) for k, v in self.M.items() if k in live), self.axes, sorted(sorted(g) for g in self.groups)])
@@ -256,7 +266,8 @@ class Model:
             "tuple": any(len(self.func(n)["outs"]) > 1 for n in self.alive()),
             "nest_leaf_tuple": False,  # filled in from the real object (check_state)
             "nest_bound": any(self.func(n).get("bound") for g in nested for n in g),
-            "nest_out_renamed": any(self.M[o] != v for g in nested for o, v in self.nest_names.get(g, {}).items() if o not in self.dropped),
+            "nest_out_renamed": self._nest_renamed(outs=True),
+            "nest_in_renamed": self._nest_renamed(outs=False),
             "mapped": self.fam == "map" or bool(self.axes),
             "scoped": any("." in self.M[n] for n in self.roots() + self.outputs()),
         }
@@ -302,10 +313,6 @@ def structure(p):
     return sorted((members(f) for f in p.functions), key=sorted)
 
 
-def outs_of(f):
-    return list(f.output_name) if isinstance(f.output_name, tuple) else [f.output_name]
-
-
 # ------------------------------------------------------------------------------------------------
 # applying one rewrite to the real object and to the model
 # ------------------------------------------------------------------------------------------------
@@ -316,10 +323,6 @@ class Rejected(Exception):
 def join_pipeline(n):
     fn = terms.make_function(f"j{n}", [f"jx{n}"])
     return _quiet(Pipeline, [PipeFunc(fn, f"jo{n}")])
-
-
-def _node_by_out(p, name):
-    return p.output_to_func[name]
 
 
 def apply_impl(p, op, m):  # noqa: C901, PLR0911, PLR0912
@@ -768,7 +771,7 @@ def check_state(p, m, last):
     """the complete oracle on one state; -> ([(sig, text)], number of executions of the real pipeline)"""
     feats = m.feats()
     feats["nest_leaf_tuple"] = impl_nest_leaf_tuple(p)
-    base_sig = {"op": last, **{k: feats[k] for k in ("nested", "tuple", "nest_leaf_tuple", "nest_bound", "nest_out_renamed", "mapped", "scoped")}}
+    base_sig = {"op": last, **{k: feats[k] for k in ("nested", "tuple", "nest_leaf_tuple", "nest_bound", "nest_out_renamed", "nest_in_renamed", "mapped", "scoped")}}
     res = check_retained(p, m, base_sig)
     n = 0
     if any(s["kind"] in ("unknown-output", "structure") for s, _ in res):
